@@ -100,7 +100,7 @@ func TestVerifReplay(t *testing.T) {
 			case err == nil && p != nil && draws != L:
 				vReport(vHit{Input: in, Observed: vSprint("password ", p.String(), " after ", draws, " draws on an all-zero stream"), Required: vSprint("a first candidate that is valid is returned after exactly ", L, " draws")})
 				return
-			case err != nil && strings.Contains(err.Error(), "couldn't generate") && draws != MaxTrials*L:
+			case err != nil && draws != 0 && draws != MaxTrials*L: // a refusal before generation draws nothing; giving up after all attempts draws MaxTrials*Length
 				vReport(vHit{Input: in, Observed: vSprint(draws, " draws for ", MaxTrials, " rejected candidates"), Required: vSprint(MaxTrials*L, ": every retry redraws all ", L, " positions (a rejected candidate leaves nothing behind)")})
 				return
 			}
